@@ -71,10 +71,33 @@ def run_translator():
     return not markers, markers
 
 
+COQPROJECT_HEAD = """-Q theories Dns
+-arg -w -arg -notation-overridden,-deprecated-hint-without-locality,-deprecated-instance-without-locality,-ambiguous-paths,-deprecated-syntactic-definition
+"""
+
+
+def write_coqproject():
+    """_CoqProject lists every theories/**/*.v except the per-run Cases/ files."""
+    files = []
+    for d, _, fs in os.walk(TH):
+        if os.path.basename(d) == "Cases":
+            continue
+        for f in fs:
+            if f.endswith(".v") and not f.startswith("."):
+                files.append(os.path.relpath(os.path.join(d, f), COQ))
+    txt = COQPROJECT_HEAD + "\n".join(sorted(files)) + "\n"
+    path = os.path.join(COQ, "_CoqProject")
+    old = open(path).read() if os.path.exists(path) else ""
+    if old != txt:
+        with open(path, "w") as f:
+            f.write(txt)
+    return old != txt
+
+
 def coq_make(targets=None):
     """Full .vo build (never -vos).  Returns (rc, output)."""
-    if not os.path.exists(os.path.join(COQ, "Makefile")) or \
-            os.path.getmtime(os.path.join(COQ, "Makefile")) < os.path.getmtime(os.path.join(COQ, "_CoqProject")):
+    changed = write_coqproject()
+    if changed or not os.path.exists(os.path.join(COQ, "Makefile")):
         sh(["coq_makefile", "-f", "_CoqProject", "-o", "Makefile"], cwd=COQ, check=True)
     cmd = ["make", "-k", "-j16"] + (targets or [])
     try:
@@ -84,14 +107,14 @@ def coq_make(targets=None):
     return rc, out
 
 
-def build_harness():
+def build_harness(prop):
     hdir = os.path.join(ROOT, "harness")
     gosum = os.path.join(REPO, "go.sum")
     if os.path.exists(gosum):
         with open(gosum) as f, open(os.path.join(hdir, "go.sum"), "w") as g:
             g.write(f.read())
-    exe = os.path.join(BUILD, "harness")
-    rc, out = sh([GO, "build", "-tags", "verif", "-o", exe, "."], cwd=hdir, env=GOENV, timeout=900)
+    exe = os.path.join(BUILD, "harness_" + prop)
+    rc, out = sh([GO, "build", "-tags", "verif", "-o", exe, "./" + prop.lower()], cwd=hdir, env=GOENV, timeout=900)
     return rc, out, exe
 
 
@@ -336,7 +359,7 @@ def decide(chk, tier, seed):
         for m in markers:
             broken.append(("translator", m))
         rc, mk_out = coq_make()
-        hrc, hout, exe = build_harness()
+        hrc, hout, exe = build_harness(prop)
     if hrc != 0:
         # the implementation does not build with hooks on: nothing can be checked
         log("harness build failed:\n" + hout[-3000:])
